@@ -985,6 +985,7 @@ fn cmd_gencheck() -> i32 {
                 lit: rng.below(5) as u8,
                 flag: rng.chance(1, 3),
                 whole: false,
+                early: 0,
             };
             // mostly the small classes, some huge (3) and long-token (4) documents
             let size = if i % 40 == 0 { 3 + (i / 40 % 2) as usize } else { rng.below(3) };
